@@ -48,6 +48,27 @@ func init() {
 		vrt.Log(evEnd, 4, int64(x))
 		return x + 100, nil
 	})
+	// HFAILODD(x): fails (returns an error) for odd x, x + 7 otherwise; HPANICODD panics for odd x
+	genql.RegisterFunction("hfailodd", func(q *genql.Query, cur genql.Map, fo *genql.FunctionOptions, args []any) (any, error) {
+		x, _ := gq.Num(args[0])
+		vrt.Log(evStart, 6, int64(x))
+		vrt.Yield()
+		vrt.Log(evEnd, 6, int64(x))
+		if int64(x)%2 != 0 {
+			return nil, fmt.Errorf("hfailodd(%v)", x)
+		}
+		return x + 7, nil
+	})
+	genql.RegisterFunction("hpanicodd", func(q *genql.Query, cur genql.Map, fo *genql.FunctionOptions, args []any) (any, error) {
+		x, _ := gq.Num(args[0])
+		vrt.Log(evStart, 7, int64(x))
+		vrt.Yield()
+		vrt.Log(evEnd, 7, int64(x))
+		if int64(x)%2 != 0 {
+			panic(fmt.Errorf("hpanicodd(%v)", x))
+		}
+		return x + 8, nil
+	})
 	genql.RegisterFunction("hspin", func(q *genql.Query, cur genql.Map, fo *genql.FunctionOptions, args []any) (any, error) {
 		x, _ := gq.Num(args[0])
 		vrt.Log(evStart, 5, int64(x))
@@ -82,6 +103,21 @@ var c14Items = []c14item{
 	{sql: "SPIN.HSPIN(%s)", fn: 5},
 	{sql: "ONCE.HONCE() AS o", col: "o", fn: 3, waited: true, once: true},
 	{sql: "ASYNC.HMID(%s) AS m", col: "m", fn: 4, mul: func(x float64) any { return x + 100 }, waited: true},
+	// calls that fail on some rows (the error goes to the UnReportedErrors handler): the query still
+	// returns, every call was invoked once and has completed, the failing row's column is NULL
+	{sql: "ASYNC.HFAILODD(%s) AS e", col: "e", fn: 6, mul: func(x float64) any {
+		if int64(x)%2 != 0 {
+			return nil
+		}
+		return x + 7
+	}, waited: true},
+	{sql: "SPINASYNC.HPANICODD(%s)", fn: 7, waited: true},
+	{sql: "ASYNC.HPANICODD(%s) AS pe", col: "pe", fn: 7, mul: func(x float64) any {
+		if int64(x)%2 != 0 {
+			return nil
+		}
+		return x + 8
+	}, waited: true},
 }
 
 type c14case struct {
@@ -222,7 +258,12 @@ func (p *c14) build(c *c14case) (mk func() map[string]any, sql string, argCol st
 		for i := 0; i < rows; i++ {
 			u = append(u, map[string]any{"rid": float64(i)})
 		}
-		return map[string]any{"t": t, "m": []any{gq.Clone(any(t))}, "u": u}
+		// nested FROM: every row in an inner array of its own (one copy of the query per inner array)
+		m := []any{}
+		for _, row := range t {
+			m = append(m, []any{gq.Clone(row)})
+		}
+		return map[string]any{"t": t, "m": m, "u": u}
 	}
 	return
 }
@@ -269,8 +310,11 @@ func (p *c14) expected(c *c14case) []string {
 		out = append(out, gq.Render(full))
 	}
 	if c.form == 5 {
-		// one inner array: the result keeps the nesting
-		return []string{"[" + strings.Join(out, ",") + "]"}
+		// every row sits in an inner array of its own: the result keeps the nesting
+		for i := range out {
+			out[i] = "[" + out[i] + "]"
+		}
+		return out
 	}
 	return out
 }
@@ -305,7 +349,7 @@ func (p *c14) RunCase(i int) *core.CaseResult {
 		hOnceCounter = 0
 		cur = &gq.Out{}
 		cur.Res = vrt.Run(cfg, prefix, func() {
-			gq.Call(cur, doc, sql, genql.WithVars(map[string]any{}), genql.WithConstants(map[string]any{"c": 1.0}))
+			gq.Call(cur, doc, sql, genql.WithVars(map[string]any{}), genql.WithConstants(map[string]any{"c": 1.0}), genql.UnReportedErrors(func(error) {}))
 			vrt.Log(evRet, 0, 0)
 		})
 		cur.GPanic = cur.Res.GPanic
@@ -450,7 +494,7 @@ func (p *c14) RunCase(i int) *core.CaseResult {
 
 func (p *c14) Meta() core.Meta {
 	return core.Meta{
-		Rule: "one case per (select list of 1-2 (thorough 3) distinct items over {id, HSLOW, ASYNC.HSLOW, ASYNC.HFAST, SPINASYNC.HSLOW, SPIN.HSPIN, ONCE.HONCE, ASYNC.HMID}, form in {direct, derived table, CTE, row-scoped subquery, nested FROM (array of arrays), derived table as join side}, 0-2 (thorough 3) rows) plus immediate functions under ASYNC/SPIN/SPINASYNC (built-in ones and one registered after queries have already run); each case = stateless exploration of every schedule with <= 2 (thorough 3) preemptions of the real engine (library go statements, mutex / wait-group operations and the harness functions' latency points are scheduling points); oracle on every schedule from the event log and the result. non-trivial = more than one schedule was executed",
+		Rule: "one case per (select list of 1-2 (thorough 3) distinct items over {id, HSLOW, ASYNC.HSLOW, ASYNC.HFAST, SPINASYNC.HSLOW, SPIN.HSPIN, ONCE.HONCE, ASYNC.HMID, ASYNC.HFAILODD, SPINASYNC.HPANICODD, ASYNC.HPANICODD (calls that fail or panic on odd rows)}, form in {direct, derived table, CTE, row-scoped subquery, nested FROM (array of arrays), derived table as join side}, 0-2 (thorough 3) rows) plus immediate functions under ASYNC/SPIN/SPINASYNC (built-in ones and one registered after queries have already run); each case = stateless exploration of every schedule with <= 2 (thorough 3) preemptions of the real engine (library go statements, mutex / wait-group operations and the harness functions' latency points are scheduling points); oracle on every schedule from the event log and the result. non-trivial = more than one schedule was executed",
 		Assumptions: []string{
 			"harness functions are deterministic and model latency only by yielding to the scheduler; their results do not depend on the schedule",
 			"scheduling points at sync operations, go statements, thread exit and harness yields (sufficient for race-free executions, DRF-SC; races are C13's matter)",
